@@ -111,6 +111,11 @@ func genC17Tree(e *emitter, tier string, rng *rand.Rand) {
 		}
 		lay := layouts[rng.Intn(len(layouts))]
 		src := printProg(rng, ss, lay)
+		if rng.Intn(6) == 0 {
+			// text before the first statement is part of the source: a byte-order mark (an identifier rune
+			// for the lexer), non-ASCII identifiers, comments - every offset counts from the first byte
+			src = []string{"\ufeff", "\ufeffq = 1\n", "é = 1\n", "\ufeff# c\n", "# 注释\n\n"}[rng.Intn(5)] + src
+		}
 		res := parseTreeV1(src)
 		if res["ast"] == nil {
 			continue
@@ -141,6 +146,7 @@ func genC17Err(e *emitter, tier string, rng *rand.Rand) {
 		"if @ {\n  p(1)\n}\n", "if true {\n  p(1)\n} elif @ {\n  p(2)\n}\n", "if true {\n  x = @\n} else {\n  p(2)\n}\n", "if false {\n  p(1)\n} else {\n  x = @\n}\n",
 		"for i = @; i < 2; i = i + 1 {\n  p(i)\n}\n", "for i = 0; @; i = i + 1 {\n  break\n}\n", "for i = 0; i < 2; i = i + 1 {\n  x = @\n}\n",
 		"for x in @ {\n  p(x)\n}\n", "for x in [1] {\n  y = @\n}\n", "é = \"é\"\nfor x in [1] {\n  for y in [@] {\n    p(y)\n  }\n}\n",
+		"\ufeffq = 1\nx = @\n", "\ufeffx = @\n", "名 = 2\nx = [名, @]\n",
 		"#\n", "p(1)\nif true {\n  #\n}\n", "for x in [1] {\n  p(x)\n}\n#\n", "for i = 0; i < 1; i = i + 1 {\n}\n  #\n",
 	}
 	loadOff := []string{"nosuch()", "nosuch(1, 2)", "len()", "len(1, 2)", "add_key()", "cast(k, \"nosuchtype\")", "pr(nosuch())", "[nosuch()]", "{1: 2}", "grok(_, \"%{NOSUCH:a}\")"}
